@@ -12,6 +12,23 @@ def fancy_setitem(ex, arr, keys, v):
     raise Unsupported("fancy-index assignment")
 
 
+def _triggers(expr, var):
+    """applications of uninterpreted functions in expr that have the bound variable as a direct argument"""
+    out, seen = [], set()
+
+    def walk(e):
+        if not z3.is_app(e) or e.get_id() in seen:
+            return
+        seen.add(e.get_id())
+        if e.decl().kind() == z3.Z3_OP_UNINTERPRETED and e.num_args() > 0 and any(a.eq(var) for a in e.children()):
+            out.append(e)
+        for c in e.children():
+            walk(c)
+    if is_z3(expr):
+        walk(expr)
+    return out
+
+
 def true_positions(ex, c):
     """np.where(c)[0] for a 1-D boolean array: the ascending positions where c holds."""
     from .ops import as_ndarray
@@ -23,14 +40,30 @@ def true_positions(ex, c):
     u = z3.Int("nz_u")
     n3 = to_z3(n)
     ctx = ex.ctx
+    ct = to_z3(e((t,)))
+    trig = _triggers(ct, t)
+
+    def forall_t(body, extra=()):
+        pats = list(extra) + trig
+        return z3.ForAll([t], body, patterns=pats) if pats else z3.ForAll([t], body)
     ctx.assume(z3.And(cnt >= 0, cnt <= n3))
     # positions are in range, ascending, satisfy c, and cover every position satisfying c
     ctx.assume(z3.ForAll([t], z3.Implies(z3.And(t >= 0, t < cnt),
-                                         z3.And(posf(t) >= 0, posf(t) < n3, to_z3(e((posf(t),)))))))
-    ctx.assume(z3.ForAll([t, u], z3.Implies(z3.And(t >= 0, t < u, u < cnt), posf(t) < posf(u))))
+                                         z3.And(posf(t) >= 0, posf(t) < n3, to_z3(e((posf(t),))))), patterns=[posf(t)]))
+    ctx.assume(z3.ForAll([t, u], z3.Implies(z3.And(t >= 0, t < u, u < cnt), posf(t) < posf(u)), patterns=[z3.MultiPattern(posf(t), posf(u))]))
     rank = z3.Function(f"nz_rank!{ex.ctx.path_id}_{len(ex.ctx.assumptions)}", z3.IntSort(), z3.IntSort())
-    ctx.assume(z3.ForAll([t], z3.Implies(z3.And(t >= 0, t < n3, to_z3(e((t,)))),
-                                         z3.And(rank(t) >= 0, rank(t) < cnt, posf(rank(t)) == t))))
+    ctx.assume(forall_t(z3.Implies(z3.And(t >= 0, t < n3, ct),
+                                   z3.And(rank(t) >= 0, rank(t) < cnt, posf(rank(t)) == t)), [rank(t)]))
+    # derived (from ascending + covering): nothing holds before the first position nor after the last one; instantiated
+    # at the neighbours of the first and last position (the terms a bracketing argument needs)
+    first, last = posf(0), posf(cnt - 1)
+    ctx.assume(forall_t(z3.Implies(z3.And(cnt > 0, t >= 0, t < first), z3.Not(ct))))
+    ctx.assume(forall_t(z3.Implies(z3.And(cnt > 0, t > last, t < n3), z3.Not(ct))))
+    ctx.assume(z3.Implies(z3.And(cnt > 0, first - 1 >= 0), z3.Not(to_z3(e((first - 1,))))))
+    ctx.assume(z3.Implies(z3.And(cnt > 0, last + 1 < n3), z3.Not(to_z3(e((last + 1,))))))
+    ctx.assume(z3.Implies(cnt > 0, z3.And(first >= 0, first < n3, to_z3(e((first,))), last >= 0, last < n3, to_z3(e((last,))), first <= last)))
+    # an empty result means c holds nowhere: instantiated at both ends
+    ctx.assume(z3.Implies(z3.And(cnt == 0, n3 > 0), z3.And(z3.Not(to_z3(e((0,)))), z3.Not(to_z3(e((n3 - 1,)))))))
     r = NDArray([cnt], lambda idx: posf(to_z3(idx[0])), "int")
     r.where_of = (c, cnt, posf, rank)
     return r
